@@ -22,6 +22,11 @@ class Sched:
         for t in self.threads:
             t.dispose()
         self.threads.clear()
+        try:
+            import wsim
+            wsim._BY_COOP.pop(self, None)
+        except Exception:
+            pass
 
 
 class Coop:
